@@ -65,7 +65,10 @@ def operand(p, ops, foreign, as_list):
     objs = []
     for o in ops:
         mod = p.modules[o["m"]] if 0 <= o["m"] < len(p.modules) else foreign
-        objs.append(~mod if o["neg"] else mod)
+        x = mod
+        for _ in range(o.get("inv", 1 if o["neg"] else 0)):      # ~ applied inv times (~~m is m again, ~~~m is ~m)
+            x = ~x
+        objs.append(x)
     if len(objs) == 1 and not as_list:
         return objs[0]
     return objs
@@ -258,7 +261,8 @@ def random_history(ctx, rnd, tid, n, length, classes, p_save=0.0, variants=("can
             m = rnd.randrange(n)
             if allow_foreign and rnd.random() < 0.01:
                 m = -2
-            ops.append({"m": m, "neg": rnd.random() < 0.3})
+            x = rnd.random()
+            ops.append({"m": m, "neg": x < 0.3, "inv": 3 if x < 0.03 else 1 if x < 0.3 else 2 if x > 0.95 else 0})
         return ops
     for i in range(length):
         r = rnd.random()
@@ -289,6 +293,7 @@ def random_history(ctx, rnd, tid, n, length, classes, p_save=0.0, variants=("can
             # chaining needs plain modules in the middle operand
             for o in B:
                 o["neg"] = False
+                o["inv"] = 0 if o.get("inv", 0) % 2 else o.get("inv", 0)
             out = request(p, "chain", A, B, foreign, toggle=rnd.randrange(8), C=C)
             events.append({"op": "chain", "A": A, "B": B, "C": C, "outcome": out, "post": get_tables(p)})
         else:
